@@ -9,7 +9,11 @@ package main
 //     (export + import is the identity on the ledger);
 //   - the pair-books equations (escrow = totalSupply, locked ERC-20 = coin supply, sum of balances = totalSupply, pool
 //     equation) hold on the new chain;
-//   - a holder can still convert back (ERC-20 -> coin) on the new chain and the books still hold.
+//   - a holder can still convert back (ERC-20 -> coin) on the new chain and the books still hold;
+//   - (C04) the crosschain bridge-token registry still resolves every token contract and bridging goes on: deposits of every
+//     token kind are observed and executed, sends / fee increases / batch requests are accepted (regression of C04-5);
+//   - (C08) what hangs on the erc20 alias index still works: lookups, ConvertDenom of an alias coin, the bridge fee of an
+//     externally-owned token is locked not burned, IsOriginOrConvertedDenom unchanged (regression of C08-2).
 // Monitor-only: nothing follows in the ledger model (the registry side of export/import is modelled in M_Erc20 part A).
 
 import (
@@ -93,7 +97,9 @@ func lifecycleHistory(seed int64, rep *lib.Report) {
 	}
 	w.C = nc
 	for _, ch := range []string{"eth", "bsc", "tron"} {
-		xcache[ch] = nc.X(ch)
+		nx := nc.X(ch)
+		nx.Oracles = xcache[ch].Oracles // (the same oracle identities: their registration is part of the imported state)
+		xcache[ch] = nx
 	}
 	after := w.cells(nc.Ctx)
 	for i := range before {
@@ -105,6 +111,28 @@ func lifecycleHistory(seed int64, rep *lib.Report) {
 	for _, k := range regKeys {
 		if d, _ := xcache[k.ch].Keeper.GetBridgeDenomByContract(nc.Ctx, k.contract); d != regBefore[k] {
 			fail("C04:export-import:bridge-token-registry-lost", fmt.Sprintf("after a genesis export + import the %s module no longer finds the bridge denomination of token contract %s (%q before, %q after): InitGenesis calls AddBridgeToken(token, denom) with the arguments the other way round, the registry is keyed by the contract address instead of the bridge denomination; deposits of that token can no longer be executed and sends towards it are refused", k.ch, k.contract, regBefore[k], d))
+			break
+		}
+	}
+	// bridging goes on after the import (regression of C04-5, fixed in /repo c0804db): a deposit of every bridged token kind is
+	// observed and executed, a holder can send towards the chain, a pending transfer's fee can be raised, a batch is requested
+	w.height[1], w.height[2] = 0, 0
+	for _, ch := range []int{1, 2} {
+		w.nonce[ch] = xcache[chainName(ch)].Keeper.GetLastObservedEventNonce(nc.Ctx)
+	}
+	for _, o := range []Op{
+		{K: "SendToFx", C: 1, T: 1, A: 102, X: 321}, {K: "SendToFx", C: 1, T: 0, A: 102, X: 77}, {K: "SendToFx", C: 2, T: 1, A: 103, X: 55},
+		{K: "SendToFx", C: 1, T: 2, A: 103, X: 300},
+		{K: "SendToExternal", C: 1, T: 1, A: 100, X: 100, Y: 2},
+		{K: "IncreaseFee", C: 1, T: 2, A: 100, ID: 2, X: 20}, // (transfer 2: pending since before the export; 100 holds the bridge denomination)
+		{K: "RequestBatch", C: 1, T: 1},
+	} {
+		o := o
+		pre := mon.before(o)
+		res := w.perform(&o, record, mon)
+		mon.after(o, pre, res)
+		if !res.ok {
+			fail("C04:export-import:bridge-token-registry-lost:"+o.K, fmt.Sprintf("after a genesis export + import %s is refused: %v", o.Coq(), res.err))
 			break
 		}
 	}
@@ -140,6 +168,16 @@ func lifecycleHistory(seed int64, rep *lib.Report) {
 		lost("convert-denom", fmt.Sprintf("a holder of the alias coin can no longer convert it to the base denomination: %s is refused: %v", cd.Coq(), res.err))
 	} else {
 		mon.books(cd)
+	}
+	extAlias := w.Toks[2].Alias("eth").Denom
+	supBefore := w.C.Supply(nc.Ctx, extAlias)
+	fee := Op{K: "IncreaseFee", C: 1, T: 2, A: 100, ID: 2, X: 50}
+	if res := w.perform(&fee, record, mon); !res.ok {
+		fail("C08:export-import:setup", fmt.Sprintf("lifecycle history: %s was refused: %v", fee.Coq(), res.err))
+	} else if supAfter := w.C.Supply(nc.Ctx, extAlias); supAfter.Cmp(supBefore) != 0 {
+		lost("bridge-fee-burned", fmt.Sprintf("%s burns the bridge denomination of an externally-owned token (supply of %s %s -> %s) instead of locking it in the chain module", fee.Coq(), extAlias, supBefore, supAfter))
+	} else {
+		mon.books(fee)
 	}
 	for _, tk := range w.Toks {
 		for _, al := range tk.Aliases {
